@@ -859,7 +859,8 @@ func sxGlobalValue(g *ssa.Global) sxVal {
 	elem := g.Type().(*types.Pointer).Elem().Underlying()
 	_, isFunc := elem.(*types.Signature)
 	_, isMap := elem.(*types.Map)
-	if !isFunc && !isMap {
+	_, isStruct := elem.(*types.Struct)
+	if !isFunc && !isMap && !isStruct {
 		return nil
 	}
 	init := g.Pkg.Func("init")
@@ -887,6 +888,31 @@ func sxGlobalValue(g *ssa.Global) sxVal {
 			AllInstrs(ff, func(in ssa.Instruction) {
 				if st, ok := in.(*ssa.Store); ok && st.Addr == ssa.Value(g) && ff != init {
 					bad = true
+				}
+				if isStruct && ff != init {
+					// a computed-once struct: only whole loads and field loads
+					if fa, ok := in.(*ssa.FieldAddr); ok && fa.X == ssa.Value(g) {
+						for _, r := range *fa.Referrers() {
+							if ld, ok := r.(*ssa.UnOp); !ok || ld.Op != token.MUL {
+								if _, dbg := r.(*ssa.DebugRef); !dbg {
+									bad = true
+								}
+							}
+						}
+					}
+					for _, op := range in.Operands(nil) {
+						if op != nil && *op == ssa.Value(g) {
+							switch x := in.(type) {
+							case *ssa.UnOp:
+								if x.Op != token.MUL {
+									bad = true
+								}
+							case *ssa.FieldAddr, *ssa.DebugRef:
+							default:
+								bad = true // address handed out
+							}
+						}
+					}
 				}
 				ld, ok := in.(*ssa.UnOp)
 				if !ok || ld.X != ssa.Value(g) || !isMap || ff == init {
@@ -950,6 +976,31 @@ func sxGlobalValue(g *ssa.Global) sxVal {
 			}
 		}
 		out = ml
+	case *ssa.Call:
+		// a struct computed once from constants (e.g. the descriptor of a constant blob)
+		if isStruct {
+			rec := &sxCallRec{Call: u, Name: CalleeName(u), Callee: StaticCallee(u), id: "init:" + short(g.Pkg.Pkg.Path()) + "." + g.Name()}
+			for _, a := range u.Call.Args {
+				var t sxVal
+				switch x := a.(type) {
+				case *ssa.Const:
+					t = sxConst{x}
+				case *ssa.Convert:
+					if k, ok := x.X.(*ssa.Const); ok {
+						if isStringType(x.X.Type()) && isStringType(x.Type()) {
+							t = sxConst{k}
+						} else {
+							t = sxOp{"convert:" + stTypeName(x.Type()), []sxVal{sxConst{k}}}
+						}
+					}
+				}
+				if t == nil {
+					return nil
+				}
+				rec.Args = append(rec.Args, t)
+			}
+			out = sxCall{rec, 0}
+		}
 	default:
 		if isFunc {
 			out = lit(val)
@@ -1080,6 +1131,10 @@ func (s *sxState) load(addr sxVal, t types.Type) sxVal {
 		return sxOp{"index", []sxVal{s.load(a.base, nil), a.idx}}
 	case sxAlloc:
 		return sxZeroOf(t)
+	case sxGlobal:
+		if v := sxGlobalValue(a.g); v != nil {
+			return v
+		}
 	}
 	return sxInit{addr}
 }
